@@ -31,7 +31,7 @@ pub enum DOp {
     Sudo,
 }
 
-const ALL: [DOp; 14] = [DOp::Store, DOp::Inst, DOp::ExecOk, DOp::ExecCaught, DOp::Send, DOp::Block, DOp::Inst2, DOp::ExecFail, DOp::Dup1, DOp::Mint, DOp::Delegate, DOp::InstFail, DOp::StoreId7, DOp::Sudo];
+const ALL: [DOp; 14] = [DOp::Inst, DOp::Inst2, DOp::ExecCaught, DOp::Store, DOp::Dup1, DOp::ExecOk, DOp::Send, DOp::Block, DOp::ExecFail, DOp::Mint, DOp::Delegate, DOp::InstFail, DOp::StoreId7, DOp::Sudo];
 
 struct Inst {
     app: DApp,
@@ -51,7 +51,10 @@ fn fresh() -> Inst {
         router.staking.setup(storage, StakingInfo { bonded_denom: "TOKEN".into(), unbonding_time: 60, apr: Decimal::percent(10) }).unwrap();
         router.staking.add_validator(api, storage, &block, Validator::create("val".into(), Decimal::percent(10), Decimal::percent(90), Decimal::percent(1))).unwrap();
     });
-    Inst { app, contracts: vec![], u, v }
+    let mut i = Inst { app, contracts: vec![], u, v };
+    // one code is part of every fresh instance, so that instantiations need no preceding store
+    i.app.store_code(Box::new(Puppet { tag: 1 }));
+    i
 }
 
 fn prog(kind: DOp) -> Rc<Program> {
@@ -194,7 +197,7 @@ pub struct DetOut {
 
 pub fn explore(ctx: &Ctx, report: bool) -> DetOut {
     set_watch(Watch::default());
-    let (n_a, len_a, n_b, len_b) = ctx.tier.pick((10, 4, 8, 2), (14, 5, 7, 3));
+    let (n_a, len_a, n_b, len_b) = ctx.tier.pick((10, 4, 5, 3), (14, 5, 8, 3));
     // (a) every history twice on independently built apps
     let hs = histories(&ALL[..n_a], len_a);
     let ops = AtomicU64::new(0);
@@ -223,12 +226,15 @@ pub fn explore(ctx: &Ctx, report: bool) -> DetOut {
         .reduce(|| 0, |a, b| a.wrapping_add(b));
     // (b) pairs of histories on two apps in the same thread, every interleaving
     let hb = histories(&ALL[..n_b], len_b);
+    // second histories: quick uses the shorter ones only
+    let len_b2 = ctx.tier.pick(2, len_b);
     let solos: Vec<Vec<String>> = hb.par_iter().map(|h| {
         set_watch(Watch::default());
         solo(h)
     }).collect();
     let runs = AtomicU64::new(0);
-    let pairs = (hb.len() * hb.len()) as u64;
+    let n2 = hb.iter().filter(|h| h.len() <= len_b2).count();
+    let pairs = (hb.len() * n2) as u64;
     let idx: Vec<usize> = (0..hb.len()).collect();
     let digest_b: u64 = idx
         .par_iter()
@@ -236,6 +242,9 @@ pub fn explore(ctx: &Ctx, report: bool) -> DetOut {
             set_watch(Watch::default());
             let mut d = 0u64;
             for i2 in 0..hb.len() {
+                if hb[i2].len() > len_b2 {
+                    continue;
+                }
                 let (h1, h2) = (&hb[*i1], &hb[i2]);
                 for il in interleavings(h1.len(), h2.len()) {
                     let mut a = fresh();
